@@ -9,5 +9,7 @@ CONSTANTS
   MaxCrashes = 0
   Ops = {}
   Deviations = {}
+  MaxFaults = 1000
+  FDev = {}
 POSTCONDITION Accepted
 CHECK_DEADLOCK FALSE
